@@ -284,10 +284,30 @@ def main(argv):
                     if b2.fid and set(b2.fid) <= set(s.fid) and len(b2.fid) == 1 and set(b2.fid) != set(b.fid):
                         c.append(("mul", b2.recipe, ("mul", b.recipe, s.recipe)))
     l3 = level(c, 3, sample_every=500)
+    # L3b/L3c: component tensors that are NOT directly indexed (operand of dot/inner, of a tensor sum, branch of a
+    # tensor-valued conditional) inside a second tensor scope over the same index objects
+    c = []
+    for s in l3:
+        if s.rank != 1 or len(s.fid) != 1 or not set(_terms(s.recipe)) <= {"v", "A", "f", "w"}:
+            continue
+        r = s.recipe
+        c += [("dot", r, ("t", "v")), ("dot", ("t", "w"), r), ("inner", r, ("t", "v")), ("add", r, ("t", "w")),
+              ("conditional", ("lt", ("t", "f"), ("t", "c")), r, ("t", "w"))]
+    l3b = level(c, 31, sample_every=300)
+    c = []
+    for s in l3b:
+        if s.rank == 1:
+            c += index_cands(s, {1: IDX[1][:4]})
+    l3b2 = level(c, 32, sample_every=1000)
+    c = []
+    for s in l3b + l3b2:
+        if s.rank == 0:
+            c += tensor_cands(s, maxn=1)
+    l3c = level(c, 33, sample_every=1000)
     # L4: index the tensors of L3 (and the list tensors of L2) again with pool indices
     c = []
     pats = IDX if not quick else {1: IDX[1][:4], 2: IDX[2][:6]}
-    src = l3 + [s for s in l2 if s.rank]
+    src = l3 + l3c + [s for s in l2 if s.rank]
     if quick:
         # quick: only tensors whose recipe mentions at most 2 distinct terminals from {v, A, Vv, f}
         src = [s for s in src if set(_terms(s.recipe)) <= {"v", "A", "Vv", "f", "w"}]
@@ -306,7 +326,7 @@ def main(argv):
         for b in partners:
             c += bin_cands(a, b, ops=("mul", "add"))
     l5 = level(c, 5, sample_every=5000)
-    levels = [l0, l1, l2, l3, l4, l5]
+    levels = [l0, l1, l2, l3, l3b, l3b2, l3c, l4, l5]
     if not quick:
         c = []
         for s in l5:
@@ -317,7 +337,7 @@ def main(argv):
         levels.append(l6)
     run.bounds.update(
         grammar="L1 index terminals; L2 binary (+,-,*,/f, as_vector) over L0 u L1; L3 as_tensor(<=2 indices, all permutations); "
-        "L4 index again with pool indices; L5 * and + with indexed terminals; (thorough) L6 as_tensor/index again",
+        "L3b dot/inner/+/conditional with an un-indexed component tensor, L3c as_tensor again; L4 index again with pool indices; L5 * and + with indexed terminals; (thorough) L6 as_tensor/index again",
         terminals=sorted(U.t),
         index_pool=sorted(U.idx),
         levels=[len(x) for x in levels],
